@@ -313,6 +313,31 @@ func c16Check(c C16Case, cx *h.Ctx) *h.Failure {
 		return f
 	}
 
+	// NewPolygon given rings of different coordinate types reduces to the common subset, whichever ring comes first
+	if model.T == gm.Polygon && len(model.Rings) >= 1 {
+		common := 3
+		rings := make([]geom.LineString, len(model.Rings))
+		want := gm.G{T: gm.Polygon}
+		for i, r := range model.Rings {
+			rct := c.Mixed[i%len(c.Mixed)]
+			common &= rct
+			rm := forceCT(gm.G{T: gm.LineString, CT: model.CT, Co: r}, rct)
+			rings[i] = rm.ToGeom().MustAsLineString()
+		}
+		for i, r := range model.Rings {
+			rm := forceCT(forceCT(gm.G{T: gm.LineString, CT: model.CT, Co: r}, c.Mixed[i%len(c.Mixed)]), common)
+			want.Rings = append(want.Rings, rm.Co)
+		}
+		want.CT = common
+		out := geom.NewPolygon(rings).AsGeometry()
+		if m := c16Walk(out, geom.CoordinatesType(common), "NewPolygon(mixed rings)"); m != "" {
+			return fail("ctype/mixed-constructor", "NewPolygon given rings of coordinate types %v: %s", c.Mixed, m)
+		}
+		if d := gm.Diff(want, gm.FromGeom(out)); d != "" {
+			return fail("ctype/mixed-constructor-values", "NewPolygon given rings of coordinate types %v does not reduce to the common subset: %s", c.Mixed, d)
+		}
+	}
+
 	// mixed-ctype construction: constructors reduce to the common subset
 	if len(model.Mem) > 0 {
 		if f := c16Mixed(c, model, fail); f != nil {
